@@ -836,6 +836,25 @@ def check_C04(ctx):
                 (fa, na), (fb, nb) = list(fps.items())[:2]
                 ctx.violation(f"[C04] libxml2 reporter: what a test inherits from the runner depends on what ran before it: in suite {suite} test {na} starts with `{fa}`, test {nb} with `{fb}`",
                               "# (forking mode, libxml2 reporter; harness/scenario_run writes <outdir>/fingerprints)\n" + s.text(), found_input=True, facts={"mode": "fork", "inherited_state": True, "rep": "libxml"})
+    # ... and when the test program itself was started with Ctrl-C ignored (`nohup`, a background job of a shell without job
+    # control, many CI runners): the first test must find what every later test finds
+    ig = [scens[i] for g in groups[: sizes(ctx, 12, 60)] for i in g[:2]]
+    iobs = bench.run_many([(s.text(), "text") for s in ig], sigint_ignored=True)
+    n_ig = 0
+    for s, o in zip(ig, iobs):
+        by_depth = {}
+        for l in o.fingerprints:
+            path, _, fp = l.partition(" ")
+            fp = " ".join(x for x in fp.split(" ") if not x.startswith("fds:"))
+            by_depth.setdefault(fp, path.split("/")[-1])
+        n_ig += len(o.fingerprints)
+        if len(by_depth) > 1 and shown < 10:
+            shown += 1
+            (fa, na), (fb, nb) = list(by_depth.items())[:2]
+            ctx.violation(f"[C04] test program started with SIGINT ignored: what a test inherits from the runner depends on what ran before it: test {na} starts with `{fa}`, test {nb} with `{fb}` (signal dispositions for signals 1-31: D default, I ignored, H handled)",
+                          "# (forking mode, text reporter, the test program started with SIGINT ignored - e.g. `nohup ./scenario_run ...`; harness/scenario_run writes <outdir>/fingerprints)\n" + s.text(),
+                          found_input=True, facts={"mode": "fork", "inherited_state": True, "start": "sigint-ignored"})
+    ctx.coverage["started_with_sigint_ignored"] = {"runs": len(ig), "tests_fingerprinted": n_ig}
     # the same orders as another reporter shows them: what CUTE says about a test (its status lines) does not depend on the order either
     cobs = bench.run_many([(s.text(), "cute") for s in scens])
     for g in groups:
